@@ -60,7 +60,8 @@ def _load():
     return _mods
 
 
-def gen_scenario(ch: Choices, calm: bool, no_cb_reconnect: bool = False) -> Dict[str, Any]:
+def gen_scenario(ch: Choices, calm: bool, no_cb_reconnect: bool = False, tier: str = "quick") -> Dict[str, Any]:
+    deep = (not calm) and tier == "thorough" and ch.flag(1, 2, "deep")   # deeper bounds in half of the thorough runs
     n_ep = 2 if calm else 2 + ch.draw(2, "nep")
     names = ["a", "b", "c"][:n_ep]
     broadcast = (n_ep == 3) and ch.flag(1, 3, "bcast")
@@ -86,7 +87,7 @@ def gen_scenario(ch: Choices, calm: bool, no_cb_reconnect: bool = False) -> Dict
         script = out
         return {"names": names, "broadcast": True, "script": script, "chans": [], "callback": {}}
     pairs = [(names[i], names[j]) for i in range(n_ep) for j in range(i + 1, n_ep)]
-    n_ch = 1 + ch.draw(2, "nch")
+    n_ch = 1 + ch.draw(4 if deep else 2, "nch")
     for _ in range(n_ch):
         x, y = pairs[ch.draw(len(pairs), "pair")]
         sid = ch.draw(2, "sid")
@@ -95,7 +96,7 @@ def gen_scenario(ch: Choices, calm: bool, no_cb_reconnect: bool = False) -> Dict
     for (x, y, sid) in chans:
         for (r, s) in ((x, y), (y, x)):
             callback[(s, r, sid)] = (not calm) and ch.flag(1, 5, "cb")   # receiver r of direction s->r uses callbacks
-    budget = {n: 4 for n in names}
+    budget = {n: (10 if deep else 4) for n in names}
     inflight: Dict[Tuple[str, str, int], int] = {}
     dropped: set = set()
     reconnects: List[tuple] = []
@@ -103,7 +104,7 @@ def gen_scenario(ch: Choices, calm: bool, no_cb_reconnect: bool = False) -> Dict
     for (x, y, sid) in chans:
         for d in ((x, y, sid), (y, x, sid)):
             kind_of[d] = ch.pick(["plain", "plain", "structured", "silent"])
-    n_ev = 2 + ch.draw(8, "nev")
+    n_ev = 2 + ch.draw(24 if deep else 8, "nev")
     for _ in range(n_ev):
         x, y, sid = chans[ch.draw(len(chans), "ch")]
         if ch.flag(1, 2, "dir"):
@@ -140,7 +141,7 @@ def run(ch: Choices, opts: Dict[str, Any]) -> Dict[str, Any]:
     sh, ts, bc, tbc, SM = m["sh"], m["ts"], m["bc"], m["tbc"], m["SM"]
     trace = Trace()
     calm = ch.flag(1, 10, "calm")
-    sc = gen_scenario(ch, calm, no_cb_reconnect="reconnect-with-callbacks" in opts.get("avoid", ()))
+    sc = gen_scenario(ch, calm, no_cb_reconnect="reconnect-with-callbacks" in opts.get("avoid", ()), tier=opts.get("tier", "quick"))
     names = sc["names"]
     sw = (1, 1) if calm else ch.pick([(1, 2), (1, 6), (1, 20)])
     files = [sh.__file__, ts.__file__, bc.__file__]
